@@ -53,6 +53,12 @@ std::string trigger_of(const CaseCtx& c, const Exact& E, unsigned r, const XVal&
   // 11. float_mpq_to_string (used by the long double -> mpz path) misplaces the sign of small negative fractions
   if ((op == "assign" || op == "construct") && c.dcls == TC_MPZ && conv && c.from_type == std::string("long_double") && xf && sgn(c.x->q) < 0 && c.x->q > -1)
     return "mpz_from_negative_long_double_fraction";
+  // 13. assign_float_mpq keeps one mantissa bit too many when the value turns out to be denormal only after the division
+  if ((op == "assign" || op == "construct") && c.dcls == TC_FLT && conv && c.scls == TC_MPQ && xf && sgn(c.x->q) != 0) {
+    int emin = c.dbits == 32 ? -126 : c.dbits == 64 ? -1022 : -16382;
+    mpq_class ax = abs(c.x->q);
+    if (ax < pow2(0) / pow2((unsigned)(-emin))) return "rational_source_below_smallest_normal_float";
+  }
   // 12. assign_int_float calls the double version of rint() also for long double sources
   if ((op == "assign" || op == "construct") && (sint || uint) && conv && c.from_type == std::string("long_double") && xf && sgn(c.x->q) != 0) {
     mpz_class n = abs(c.x->q.get_num());
@@ -210,6 +216,7 @@ int main(int argc, char** argv) {
     .num("traces_validated_against_impl", vf::counter(vf::CNT_TRANS)).boolean("exhaustive", complete)
     .str("bound", std::string(thorough_alphabets_ref() ? "[thorough: alphabets widened with every power of two +-1 (integers), 2^k(1+-ulp) (floats), 32-value fused alphabets] " : "") + "part 1: all 2^16 operand pairs (raw encodings, incl. reserved ones) for int8_t/uint8_t, all triples of a 16-value alphabet for add_mul/sub_mul; "
                   "~28-value boundary alphabets for 16/32/64-bit integers and long long, ~48-value alphabets for float/double/long double, ~25 for mpz/mpq, all pairs; "
+                  "mpq -> float/double/long double conversions additionally from {1,3,5,7,-1,-5}/({7,3,5,1}*2^k) over the whole denormal range, around min_normal and around max; "
                   "exponents {0,1,2,3,b/2,b-2,b-1,b,b+1,2b}; 8 rounding modes (DOWN, UP, IGNORE, NOT_NEEDED x strict); policies Debug_WRD, WRD, Extended, Bounded_Integer_Coefficient, "
                   "Transparent, raw native, Checks_NoExt; states = (type, policy, operation, direction) cells")
     .arr("samples", samples).raw("extra", extra.done()).dbl("wall_s", vf::now_s() - t0);
